@@ -1510,6 +1510,41 @@ pub fn cmd_gen(args: &[String]) -> i32 {
     0
 }
 
+/// p3r stark-expand --in cases.ndjson --out expanded.ndjson : a fault case with `"pos": "all"` becomes one case per
+/// position of that kind in the honest statement of its configuration (the counts come from the real proof).
+pub fn cmd_expand(args: &[String]) -> i32 {
+    let input = arg(args, "--in").expect("--in");
+    let out = arg(args, "--out").expect("--out");
+    let f = std::fs::File::open(&input).expect("open input");
+    let mut drivers: BTreeMap<String, Option<Box<dyn Driver>>> = BTreeMap::new();
+    let mut lines = Vec::new();
+    for l in BufReader::new(f).lines().map(|l| l.unwrap()).filter(|l| !l.trim().is_empty()) {
+        let v: Value = serde_json::from_str(&l).expect("case line");
+        if v["mode"] == "fault" && v["fault"]["pos"] == "all" {
+            let cfg = v["config"].as_str().unwrap_or("").to_string();
+            let el = v["fault"]["element"].as_str().unwrap_or("").to_string();
+            let d = drivers.entry(cfg.clone()).or_insert_with(|| make_driver(&cfg));
+            let n = d.as_ref().map(|d| d.count(&el)).unwrap_or(0);
+            if el == "none" || n == 0 {
+                let mut w = v.clone();
+                w["fault"]["pos"] = json!("first");
+                lines.push(w.to_string());
+            }
+            for i in 0..n {
+                let mut w = v.clone();
+                w["fault"]["pos"] = json!(i);
+                lines.push(w.to_string());
+            }
+        } else {
+            lines.push(v.to_string());
+        }
+    }
+    let txt: String = lines.iter().map(|l| format!("{l}\n")).collect();
+    std::fs::write(out, txt).unwrap();
+    eprintln!("stark-expand: {} cases", lines.len());
+    0
+}
+
 #[derive(Default)]
 struct Agg {
     groups: BTreeMap<(String, String, String), (u64, Value)>,
@@ -1603,7 +1638,9 @@ pub fn cmd(args: &[String]) -> i32 {
                         "fault" => {
                             let el = vstr(case.fault.get("element").unwrap_or(&Value::Null)).replace('_', "-");
                             let pos = vstr(case.fault.get("pos").unwrap_or(&Value::Null));
-                            let shape = format!("{}+{}+{}", case.config.replace('_', "-"), el, pos);
+                            // the position stays in the example; the signature names the configuration and the kind only
+                            let _ = &pos;
+                            let shape = format!("{}+{}", case.config.replace('_', "-"), el);
                             *local.totals.entry(format!("fault:verdict:{nv}/{cvd}")).or_default() += 1;
                             *local.totals.entry(format!("fault:{el}:{nv}/{cvd}")).or_default() += 1;
                             if el == "none" && !(o.native.ok && o.circuit.ok) {
@@ -1613,7 +1650,9 @@ pub fn cmd(args: &[String]) -> i32 {
                                 push(&mut local, "C01", "native-panics", shape.clone());
                             }
                             if o.circuit.panicked {
-                                push(&mut local, "C01", "circuit-panics", shape.clone());
+                                // no circuit exists, so "satisfied iff accepted" (C01) is not contradicted; a panic while building
+                                // from an altered count / degree is what C15 forbids
+                                push(&mut local, "C15", "altered-statement-panics", shape.clone());
                             } else if o.circuit.build_error && o.native.ok {
                                 push(&mut local, "C01", "circuit-build-error-native-accepts", shape.clone());
                             } else if o.circuit.ok && !o.native.ok && !o.native.panicked {
